@@ -79,39 +79,126 @@ def check(run, project):
 
 
 def s3(run, roles, L):
+    """which session bit decides: def-use + dominance, independent of how the function is laid out"""
     mod = roles.mod
     fn = roles.funcs.get("is_parameter_encryption")
     if fn is None:
         raise AnalysisError("C09: is_parameter_encryption not found")
     params = [a.arg for a in fn.args.args]
+    if len(params) < 3:
+        raise AnalysisError("C09: is_parameter_encryption(command, authorizationArea, for_response) signature changed")
+    p_cmd, p_area, p_resp = params[:3]
     sess = L.struct_types.get("TPMA_SESSION")
     masks = next((b.masks for b in sess.mro() if b.masks is not None), {}) if sess is not None else {}
     run.ob("S3", "encrypt" in masks and "decrypt" in masks and masks.get("encrypt") != masks.get("decrypt"),
            "TPMA_SESSION has distinct encrypt / decrypt bits", f"masks: {masks}", module=sess.module if sess else mod,
            node=sess.node if sess else fn, func="TPMA_SESSION", construct="TPMA_SESSION encrypt/decrypt")
-    # branch on for_response
-    ifs = [s for s in fn.body if isinstance(s, ast.If) and norm(s.test) == "for_response"]
-    run.ob("S3", len(ifs) == 1, "branches on for_response", "no `if for_response` branch", module=mod, node=fn, func=fn.name,
-           construct="for_response branch")
-    if len(ifs) == 1:
-        for body, attr, who in ((ifs[0].body, "encrypt", "responses"), (ifs[0].orelse, "decrypt", "commands")):
-            ok = len(body) == 1 and isinstance(body[0], ast.Return) and isinstance(body[0].value, ast.Call) and \
-                call_name(body[0].value) == "any" and isinstance(body[0].value.args[0], ast.GeneratorExp)
-            if ok:
-                g = body[0].value.args[0]
-                tv = norm(g.generators[0].target)
-                ok = norm(g.elt) == f"{tv}.sessionAttributes.{attr}" and norm(g.generators[0].iter) == params[1] and not g.generators[0].ifs
-            run.ob("S3", ok, f"{who}: any session with sessionAttributes.{attr}",
-                   f"{who} branch is `{norm(body[0]) if body else None}`", module=mod, node=body[0] if body else fn, func=fn.name,
-                   construct=f"is_parameter_encryption [{who}]")
-    # command form: area taken from the command, absent area -> False
-    pre = [s for s in fn.body if isinstance(s, ast.If) and norm(s.test) == f"{params[0]} is not None"]
-    ok = len(pre) == 1 and norm(pre[0]).replace("\n", " ").find(f"if {params[0]}.authorizationArea is None:") >= 0 and \
-        f"{params[1]} = {params[0]}.authorizationArea" in norm(pre[0]) and "return False" in norm(pre[0])
-    run.ob("S3", ok, "a command's own session area is consulted; no sessions -> no encryption", "command branch changed",
-           module=mod, node=pre[0] if pre else fn, func=fn.name, construct="is_parameter_encryption [command form]")
+    V = FnView(mod, fn)
+    allowed = {p_area, f"{p_cmd}.authorizationArea"}
+
+    def sources(expr, at, depth=0):
+        if depth > 6:
+            return {"?"}
+        if isinstance(expr, ast.IfExp):
+            return sources(expr.body, at, depth + 1) | sources(expr.orelse, at, depth + 1)
+        if isinstance(expr, ast.Name):
+            out = set()
+            for r in V.defs_at(at, expr.id):
+                if r[0] == "param":
+                    out.add(expr.id)
+                elif r[0] == "expr":
+                    out |= sources(r[1], at, depth + 1)
+                else:
+                    out.add("?")
+            return out or {"?"}
+        return {norm(expr)}
+
+    tests = [n for n in V.cfg.nodes if n.kind == "test" and norm(n.ast) in (p_resp, f"not {p_resp}")]
+    run.ob("S3", len(tests) == 1, "the direction is decided by one test of for_response", f"{len(tests)} tests of `{p_resp}`",
+           module=mod, node=fn, func=fn.name, construct="for_response test")
+    if len(tests) != 1:
+        return
+    t = tests[0]
+    neg = norm(t.ast).startswith("not ")
+    resp_succ = [s_ for lab, s_ in t.succ if lab == ("false" if neg else "true")]
+    from_resp = set()
+    stack = list(resp_succ)
+    while stack:
+        n = stack.pop()
+        if n.id in from_resp:
+            continue
+        from_resp.add(n.id)
+        stack.extend(x for _, x in n.succ)
+    cmd_succ = [s_ for lab, s_ in t.succ if lab == ("true" if neg else "false")]
+    from_cmd = set()
+    stack = list(cmd_succ)
+    while stack:
+        n = stack.pop()
+        if n.id in from_cmd:
+            continue
+        from_cmd.add(n.id)
+        stack.extend(x for _, x in n.succ)
+    found = {}
+    for r in [x for x in walk_no_nested(fn) if isinstance(x, ast.Return) and isinstance(x.value, ast.Call) and call_name(x.value) == "any"
+              and x.value.args and isinstance(x.value.args[0], ast.GeneratorExp)]:
+        g = x_g = r.value.args[0]
+        gen = g.generators[0]
+        tv = norm(gen.target)
+        elt = g.elt
+        okshape = isinstance(elt, ast.Attribute) and isinstance(elt.value, ast.Attribute) and elt.value.attr == "sessionAttributes" \
+            and norm(elt.value.value) == tv and len(g.generators) == 1 and not gen.ifs
+        bit = elt.attr if isinstance(elt, ast.Attribute) else None
+        src = sources(gen.iter, r)
+        node = V.node_of(r)
+        side = "response" if node.id in from_resp and node.id not in from_cmd else "command" if node.id in from_cmd and node.id not in from_resp else "both"
+        found[side] = (bit, r)
+        run.ob("S3", okshape, f"{side} direction: any(<session>.sessionAttributes.{bit}) over every session",
+               f"`{norm(r.value)[:90]}` is not `any(s.sessionAttributes.<bit> for s in <area>)` over all sessions", module=mod, node=r,
+               func=fn.name, construct=f"is_parameter_encryption [{side}] shape")
+        run.ob("S3", src <= allowed and bool(src), f"{side} direction: iterates the given session area",
+               f"iterates `{norm(gen.iter)}` which comes from {sorted(src)}, not from the command's / the given session area", module=mod,
+               node=r, func=fn.name, construct=f"is_parameter_encryption [{side}] area")
+    # every other return: the constant False (nothing requested) or a delegation to itself that keeps the direction
+    for r in [x for x in walk_no_nested(fn) if isinstance(x, ast.Return)]:
+        v = r.value
+        if isinstance(v, ast.Call) and call_name(v) == "any":
+            continue
+        if isinstance(v, ast.Constant) and v.value is False:
+            run.ob("S3", True, f"return False at L{r.lineno}")
+            continue
+        if isinstance(v, ast.Call) and call_name(v) == fn.name:
+            k = kwarg(v, p_resp)
+            ok = k is not None and norm(k) == p_resp
+            run.ob("S3", ok, f"self-delegation at L{r.lineno} keeps the direction",
+                   f"`{norm(v)[:90]}` delegates to itself {'without' if k is None else 'with a different'} `{p_resp}`: the response direction "
+                   "falls back to the command direction (decrypt instead of encrypt)", module=mod, node=r, func=fn.name,
+                   construct="is_parameter_encryption self-delegation")
+            continue
+        run.ob("S3", False, f"return at L{r.lineno}", f"`{norm(r)[:90]}` is neither the session test, nor False, nor a direction-preserving "
+               "delegation", module=mod, node=r, func=fn.name, construct="is_parameter_encryption other return")
+    want = {"response": "encrypt", "command": "decrypt"}
+    for side, bit in want.items():
+        got = found.get(side, (None, fn))
+        run.ob("S3", got[0] == bit, f"{'responses' if side == 'response' else 'commands'}: the `{bit}` attribute decides",
+               f"for {side}s the decoder consults `{got[0]}`; TPM 2.0 parameter encryption uses `{bit}` for the {side} direction", module=mod,
+               node=got[1], func=fn.name, construct=f"is_parameter_encryption [{side}s]")
+    run.ob("S3", "both" not in found, "each direction has its own return", "an any(...) return is shared by both directions", module=mod,
+           node=fn, func=fn.name, construct="is_parameter_encryption directions")
+    # an absent session area requests nothing: some `<area> is None` test returning False dominates both returns
+    nones = [n for n in V.cfg.nodes if n.kind == "test" and isinstance(n.ast, ast.Compare) and isinstance(n.ast.ops[0], ast.Is)
+             and isinstance(n.ast.comparators[0], ast.Constant) and n.ast.comparators[0].value is None
+             and (sources(n.ast.left, n.ast) & allowed)]
+    ok = False
+    for n in nones:
+        iff = n.label
+        if isinstance(iff, ast.If) and any(isinstance(x, ast.Return) and isinstance(x.value, ast.Constant) and x.value.value is False for x in iff.body):
+            if all(n.id in V.dom[V.node_of(r).id] for _, r in found.values()):
+                ok = True
+    run.ob("S3", ok, "no session area -> no encryption (tested before the sessions are iterated)",
+           "a None session area is not answered with False before it is iterated", module=mod, node=fn, func=fn.name,
+           construct="is_parameter_encryption [no sessions]")
     d = dict(zip(params[len(params) - len(fn.args.defaults):], fn.args.defaults))
-    run.ob("S3", "for_response" in d and isinstance(d["for_response"], ast.Constant) and d["for_response"].value is False,
+    run.ob("S3", p_resp in d and isinstance(d[p_resp], ast.Constant) and d[p_resp].value is False,
            "default direction is command", "for_response default changed", module=mod, node=fn, func=fn.name,
            construct="for_response default")
 
